@@ -1,16 +1,24 @@
 #!/bin/bash
-# builds the harness binaries from the current /repo working tree
+# builds the harness binaries from the current /repo working tree, with the
+# verification hooks (guard: build tag "verif") added by a build overlay, so
+# /repo itself is never modified.
 set -eu
 cd "$(dirname "$0")"
 export GOFLAGS=-mod=mod GOPROXY=off GOSUMDB=off GOTOOLCHAIN=local
 export VERIF_ROOT="$(pwd)"
 REPO="${VERIF_REPO:-/repo}"
 mkdir -p .work/bin
+# overlay: add-only export files
+python3 - "$REPO" "$VERIF_ROOT" > .work/overlay.json <<'PY'
+import json,sys,os
+repo,root=sys.argv[1],sys.argv[2]
+m={}
+hooks=os.path.join(root,'engines','hooks')
+for f in sorted(os.listdir(hooks)):
+    if f.endswith('_export_verif.go'):
+        pkg=f[:-len('_export_verif.go')]
+        m[os.path.join(repo,pkg,'export_verif.go')]=os.path.join(hooks,f)
+print(json.dumps({'Replace':m},indent=1))
+PY
 cd harness
-if [ "${1:-}" = "x" ] || [ "$REPO" != "/repo" ]; then
-  # point the replace directive at another tree (used only by mutants/try.sh)
-  sed "s#=> /repo#=> $REPO#" go.mod > go.alt.mod; cp go.sum go.alt.sum
-  go build -modfile=go.alt.mod -o ../.work/bin/h ./cmd/h
-else
-  go build -o ../.work/bin/h ./cmd/h
-fi
+go build -tags verif -overlay ../.work/overlay.json -o ../.work/bin/h ./cmd/h
